@@ -2,5 +2,6 @@ import NflowsModel.Audit.Tool
 import NflowsModel.Properties.C12
 import NflowsModel.Properties.C12E
 import NflowsModel.Properties.C12R
+import NflowsModel.Properties.C12F
 
 #audit_namespace Properties.C12
